@@ -6,7 +6,7 @@ def run(ctx):
                               "c04_token_one_client", "c04_token_header_silences_body", "c04_token_channel", "c04_code_of_other_client_refused", "c04_body_subject_reading_refuted",
                               "c04_no_side_effect", "c04_update_keeps_expiry", "c04_cli_send_no_extension",
                               "c04_old_storage_exp_refuted"])],
-        harness=("TestVerif_C04", ["kmd/common.go", "kmd/creds.go", "kmd/consts.go", "kmd/tokens.go", "kmd/c04_channels.go", "kmd/c04.go"]),
+        harness=("TestVerif_C04", ["kmd/common.go", "kmd/creds.go", "kmd/consts.go", "kmd/tokens.go", "kmd/c04.go"]),
         obl=("Obl_C04.v", ["c04_struct_tags", "c04_produced_claims", "c04_kind_strings", "c04_kinds_distinct", "c04_lifetimes"]),
         cases=("CasesC04.v", [("c04_mismatches", "accept/reject, named user and re-issued artefacts of every consumer = model (matrix, mutations, header substitutions, storage column)"),
                               ("c04_corrupt_mismatches", "byte-corrupted artefacts: verdict = model on the base token with the harness's tampered flag"),
